@@ -41,7 +41,9 @@ FanIn3 == {Case(j, <<Src(Tagged(0, l1), <<>>), Src(Tagged(1, l2), p2), Src(Tagge
              j \in {"Merge", "Concat", "Zip"}, l1 \in 0..2, l2 \in 0..2, l3 \in 0..2, p2 \in {<<>>, <<"Dup">>, <<"Buf1">>}}
 FanOutSrc == {<<>>, <<1>>, <<1, 2>>, <<1, 2, 3>>, <<2, 1, 2, 3>>, <<1, 2, 3, 4, 5>>}
 FanOutSub == Pipes(SubStages, 1)
-BranchFor(sp) == {b \in Pipes(PostStages, 1) : WellFormed(sp \o b)}
+\* branch pipelines of depth <= 1, plus a failing pair that stage fusion turns into ONE fusedFlowActor
+\* (regression guard of the fixed finding FusedErrorNoCancel: the sibling branches must still complete)
+BranchFor(sp) == {b \in Pipes(PostStages, 1) \cup {<<"Err3", "Inc">>} : WellFormed(sp \o b)}
 FanOutCases ==
   {Case("Balance", <<Src(inp, sp)>>, <<>>, [b \in 1..n |-> <<>>]) : inp \in FanOutSrc, sp \in FanOutSub, n \in 2..3}
   \cup UNION {{Case(j, <<Src(inp, sp)>>, <<>>, [b \in 1..n |-> IF b = 1 THEN b1 ELSE <<>>]) : b1 \in BranchFor(sp)} :
